@@ -16,6 +16,37 @@ class Infra(Exception):
     pass
 
 
+class Crash(Exception):
+    """The harness process died with a panic raised inside the code under test."""
+
+    def __init__(self, text):
+        super().__init__(text[:200])
+        self.text = text
+
+
+def gribigo_panic(stderr):
+    """Returns the panic text if stderr shows a Go panic whose goroutine stack starts (after runtime frames) inside
+    openconfig/gribigo rather than inside the harness; None otherwise."""
+    i = stderr.find("panic:")
+    if i < 0:
+        return None
+    txt = stderr[i:]
+    j = txt.find("\ngoroutine ")
+    if j < 0:
+        return None
+    stack = txt[j:].split("\n\n")[0]
+    for line in stack.splitlines():
+        line = line.strip()
+        if not line or line.startswith(("goroutine ", "panic(", "runtime.", "/", "created by", "[signal")):
+            continue
+        if line.startswith("github.com/openconfig/gribigo/"):
+            return txt[:20000]
+        if line.startswith("verif/harness"):
+            return None
+        # dependencies of gribigo (ygot, protobuf ...) called from it: keep looking for the first project frame
+    return None
+
+
 class Result:
     """Outcome of one check run."""
 
